@@ -153,6 +153,10 @@ class PlanJoinTSPredictorQuery:
             is_api_db = self.planner.integrations.get(main_integration, {}).get('class_type') == 'api'
             find_selects = self.planner.get_nested_selects_plan_fnc(main_integration, force=is_api_db)
             query_traversal(query.where, find_selects)
+        elif isinstance(table, NativeQuery) and query.where is not None:
+            # the conditions are put around the native query: none of their sub-selects can run with it
+            find_selects = self.planner.get_nested_selects_plan_fnc(None, force=True)
+            query_traversal(query.where, find_selects)
 
         aliased_fields = self.get_aliased_fields(query.targets)
 
